@@ -93,6 +93,16 @@ def make_task_class(index: int):
                 k = spec.get("k", 1)
                 if k < 0 or n < k:
                     if spec.get("upd", True):
+                        style = spec.get("raise", "bare")
+                        if style == "from":
+                            # the usual way a task reports a transient condition: wrapping the low-level error
+                            try:
+                                raise ConnectionError("low-level failure")
+                            except ConnectionError as low:
+                                raise TransientError("scripted transient failure", context_update={key: n + 1}) from low
+                        if style == "cause":
+                            raise TransientError("scripted transient failure", cause=TimeoutError("low-level timeout"),
+                                                 context_update={key: n + 1})
                         raise TransientError("scripted transient failure", context_update={key: n + 1})
                     # without a context update the task cannot count; it fails until the harness-visible
                     # attempt counter (ledger) reaches k
